@@ -83,6 +83,13 @@ func pickGeo(g *G, size int, used uint64, wc int) (Geo, bool) {
 	for try := 0; try < 60; try++ {
 		lo, hi := widthClasses[wc][0], widthClasses[wc][1]
 		L := lo + g.R.Intn(hi-lo+1)
+		if g.R.Intn(3) == 0 {
+			// lengths next to and on the accessor-width and byte boundaries
+			c := []int{7, 8, 9, 15, 16, 17, 24, 31, 32, 33, 40, 48, 55, 56, 57, 62}
+			if l2 := c[g.R.Intn(len(c))]; l2 >= lo && l2 <= hi {
+				L = l2
+			}
+		}
 		be := g.R.Bool()
 		s := g.R.Intn(64)
 		ge := Geo{be, s, L}
@@ -112,6 +119,13 @@ func genDbc43(g *G, forceWC int) *gDbc {
 	}
 	withSend := g.R.Intn(3) > 0
 	nm := 1 + g.R.Intn(4)
+	// "twin" files: the messages repeat the first message's signal names, most signals carry metadata, metadata
+	// lines are shuffled: every cross-message confusion of same-named signals becomes visible
+	twin := g.R.Intn(4) == 0
+	if twin {
+		withSend = true
+		nm = 2 + g.R.Intn(2)
+	}
 	ids := map[uint32]bool{}
 	for mi := 0; mi < nm; mi++ {
 		m := &gMsg{name: fmt.Sprintf("Msg%c%d", 'A'+byte(g.R.Intn(26)), mi), size: g.R.Intn(9), sender: node()}
@@ -149,7 +163,24 @@ func genDbc43(g *G, forceWC int) *gDbc {
 			if forceWC >= 0 && si == 0 {
 				wc = forceWC
 			}
-			sg := &gSig{name: fmt.Sprintf("Sig%c%d", 'A'+byte(g.R.Intn(26)), si), signed: g.R.Bool(), factor: "1", offset: "0", min: "0", max: "0", recv: []string{node()}}
+			sname := fmt.Sprintf("Sig%c%d", 'A'+byte(g.R.Intn(26)), si)
+			if g.R.Bool() || twin {
+				// names shared between messages; unique inside one message
+				cand := g.R.Pick("Counter", "Checksum", "Status", "Mode", "Value", "Speed")
+				if twin && mi > 0 && si < len(d.msgs[0].sigs) {
+					cand = d.msgs[0].sigs[si].name
+				}
+				dup := false
+				for _, o := range m.sigs {
+					if o.name == cand {
+						dup = true
+					}
+				}
+				if !dup {
+					sname = cand
+				}
+			}
+			sg := &gSig{name: sname, signed: g.R.Bool(), factor: "1", offset: "0", min: "0", max: "0", recv: []string{node()}}
 			role := g.R.Intn(6)
 			if muxSig == nil && role <= 1 && si < ns-1 {
 				// multiplexer: unsigned, 2..16 bits (1-bit multiplexers are exercised separately)
@@ -235,7 +266,7 @@ func genDbc43(g *G, forceWC int) *gDbc {
 					sg.vds = append(sg.vds, [2]string{fmt.Sprint(v), fmt.Sprintf("Val%d %c", k, 'a'+byte(g.R.Intn(26)))})
 				}
 			}
-			if !sg.flt && g.R.Intn(5) == 0 {
+			if !sg.flt && (g.R.Intn(5) == 0 || twin && g.R.Bool()) {
 				sg.hasDef = true
 				switch {
 				case L == 1:
@@ -283,26 +314,69 @@ func genDbc43(g *G, forceWC int) *gDbc {
 	w("BA_DEF_ BO_ \"GenMsgSendType\" ENUM \"None\",\"Cyclic\",\"Event\";")
 	w("BA_DEF_ BO_ \"GenMsgCycleTime\" INT 0 100000;")
 	w("BA_DEF_ SG_ \"GenSigStartValue\" INT 0 0;")
-	for _, m := range d.msgs {
+	type mline struct {
+		mi, si int // si = -1: message-level
+		text   string
+	}
+	var metaLines []mline
+	for mi, m := range d.msgs {
 		if m.sendType != "" {
-			w("BA_ \"GenMsgSendType\" BO_ %d \"%s\";", m.id, m.sendType)
-			w("BA_ \"GenMsgCycleTime\" BO_ %d %d;", m.id, m.cycle)
+			metaLines = append(metaLines, mline{mi, -1, fmt.Sprintf("BA_ \"GenMsgSendType\" BO_ %d \"%s\";", m.id, m.sendType)})
+			metaLines = append(metaLines, mline{mi, -1, fmt.Sprintf("BA_ \"GenMsgCycleTime\" BO_ %d %d;", m.id, m.cycle)})
 		}
-		for _, s := range m.sigs {
+		for si, s := range m.sigs {
 			if s.hasDef {
-				w("BA_ \"GenSigStartValue\" SG_ %d %s %d;", m.id, s.name, s.def)
+				metaLines = append(metaLines, mline{mi, si, fmt.Sprintf("BA_ \"GenSigStartValue\" SG_ %d %s %d;", m.id, s.name, s.def)})
 			}
 			if len(s.vds) > 0 {
 				var parts []string
 				for _, v := range s.vds {
 					parts = append(parts, fmt.Sprintf("%s \"%s\"", v[0], v[1]))
 				}
-				w("VAL_ %d %s %s ;", m.id, s.name, strings.Join(parts, " "))
+				metaLines = append(metaLines, mline{mi, si, fmt.Sprintf("VAL_ %d %s %s ;", m.id, s.name, strings.Join(parts, " "))})
 			}
 			if s.flt {
-				w("SIG_VALTYPE_ %d %s : 1;", m.id, s.name)
+				metaLines = append(metaLines, mline{mi, si, fmt.Sprintf("SIG_VALTYPE_ %d %s : 1;", m.id, s.name)})
 			}
 		}
+	}
+	// metadata lines may come in any order (§4.2): half of the files shuffle them; half of the twin files
+	// interleave them signal by signal across the messages, each message's own lines in between
+	switch {
+	case twin && g.R.Bool():
+		var out []mline
+		used := make([]bool, len(metaLines))
+		for si := 0; si < 6; si++ {
+			for mi := range d.msgs {
+				for k, l := range metaLines {
+					if !used[k] && l.mi == mi && l.si == -1 {
+						used[k] = true
+						out = append(out, l)
+						break
+					}
+				}
+				for k, l := range metaLines {
+					if !used[k] && l.mi == mi && l.si == si {
+						used[k] = true
+						out = append(out, l)
+					}
+				}
+			}
+		}
+		for k, l := range metaLines {
+			if !used[k] {
+				out = append(out, l)
+			}
+		}
+		metaLines = out
+	case twin || g.R.Bool():
+		for i := len(metaLines) - 1; i > 0; i-- {
+			j := g.R.Intn(i + 1)
+			metaLines[i], metaLines[j] = metaLines[j], metaLines[i]
+		}
+	}
+	for _, l := range metaLines {
+		w("%s", l.text)
 	}
 	d.text = []byte(sb.String())
 	return d
